@@ -48,6 +48,8 @@ def adapter_entry(a):
         return ["wrap", a["tag"]]
     if a["a"] == "prefix":
         return ["prefix", a["prefix"]]
+    if a["a"] == "auth":
+        return auth_entry(a["kind"], a)
     raise ValueError(a)
 
 
